@@ -223,7 +223,7 @@ func runC05(ctx *core.Ctx, idx int) *core.Result {
 	} else {
 		g := gen.NewG(r)
 		g.Comment = true
-		c = g.RandomChange()
+		c = g.RandomChangeWide()
 		for f := 0; f < 4; f++ {
 			plants, _ := g.InstancePlants(c, 1+r.Intn(10), r.Intn(3))
 			hdr := ""
